@@ -14,6 +14,14 @@ Oracle   : per row, HedString(assembled row text).validate() (string level), the
            1e-6 apart at 10..100, 1e-8 at 33; the code documents a 1e-9 tolerance) - are separate time points and get the
            ordinary row checks; rows whose onsets are the same number written differently ("2", "2.0", "2.000") are ONE time
            point: the errors reported for them are the string-level errors of their joined annotation.
+           Part undefined-between: 3-5 row tables whose onset column holds 0, 1 or 2 entries without a time (n/a, empty, not a
+           number) at every position BETWEEN / before / after the numeric ones, every row permutation: same issues modulo row
+           labels, and the out-of-order warning exactly when the numeric onsets, read in file order, step backwards (a file whose
+           numeric onsets are in order but which has undefined onsets gets the warning too - its text asks for onsets
+           "increasing and defined" - under a label of its own).
+           Part untimed-spellings: rows without a usable time (no onset column at all, or an onset that is n/a) carrying the temporal
+           tags in every valid spelling - short, partial path, full path, lower / upper / mixed case, inside Def groups: one
+           TEMPORAL_TAG_ERROR per temporal tag whatever its spelling, and the same issues as the canonical spelling.
 """
 import collections
 import io
@@ -45,6 +53,8 @@ L_CASE = "C07.delay.case_insensitive"               # reserved tags in any lette
 L_MULTI = "C07.delay.several_groups_in_one_row"     # every Delay group of a row is its own event at onset + delay
 L_SHUFFLE = "C07.shuffle.invariant"
 L_UNORDERED = "C07.shuffle.unordered_warning"
+L_UNDEFINED = "C07.shuffle.unordered_warning_undefined_onset"   # numeric onsets in order, but some onset is n/a / empty / not a number
+L_SPELL = "C07.spelling.reserved_tags_any_path_form"          # reserved tags as partial / full path behave as the short form
 L_NAONSET = "C07.onset.na_row_validated"             # new: rows with n/a onset are mis-indexed after sorting
 L_TOGETHER = "C07.onset.equal_rows_together"         # rows whose onsets are the same number (however written) form one time point
 ROWLESS_OK = {"ONSETS_UNORDERED", "HED_UNKNOWN_COLUMN"}
@@ -57,6 +67,7 @@ SIDECAR = {"cat": {"Description": "categorical", "HED": {"go": "Green", "stop": 
 
 LAYOUTS = {
     "hed1": dict(kind="tabular", via="df", columns=["onset", "HED"], bearing=["HED"], sidecar=None, onset=True, header=True),
+    "hed0": dict(kind="tabular", via="df", columns=["HED", "trial"], bearing=["HED"], sidecar=None, onset=False, header=True),
     "tsv1": dict(kind="tabular", via="tsv", columns=["onset", "duration", "HED"], bearing=["HED"], sidecar=None, onset=True,
                  header=True),
     "sidecar2": dict(kind="tabular", via="df", columns=["onset", "cat", "HED"], bearing=["cat", "HED"],
@@ -222,15 +233,42 @@ def _leaves(tree, depth=0):
             yield n, depth
 
 
+RESERVED_NAMES = ("Def", "Onset", "Offset", "Inset", "Delay", "Duration")
+_paths = {}
+
+
+def reserved_paths():
+    """{short name: tuple of the names on its path in the schema XML (read independently, rt/c01_schema.py)}"""
+    if not _paths:
+        from rt.c01_schema import SchemaModel
+        model = SchemaModel("8.3.0")
+        for name in RESERVED_NAMES:
+            _paths[name] = tuple(model.node(name).path)
+    return _paths
+
+
+def reserved(leaf):
+    """(canonical short name lower-cased, text behind the name without its '/') when the tag text is ANY valid spelling of a
+    reserved tag: the name, a partial path or the full path ending in it, in any letter case; else (None, None)"""
+    parts = [x.strip() for x in leaf.strip().split("/")]
+    low = [x.casefold() for x in parts]
+    for name, path in reserved_paths().items():
+        lp = [x.casefold() for x in path]
+        for k in range(1, len(lp) + 1):
+            if low[:k] == lp[-k:]:
+                return name.casefold(), "/".join(parts[k:])
+    return None, None
+
+
 def temporal_groups(text):
     """top-level groups carrying Onset/Offset/Inset and a Def: list of (marker, def name lower-cased)"""
     tree = parse_strict(text)
     out = []
     for node in tree or []:
         if isinstance(node, list):
-            direct = [x for x in node if isinstance(x, str)]
-            marks = [x.casefold() for x in direct if x.casefold() in TEMPORAL_TAGS]
-            defs = [x.split("/", 1)[1].casefold() for x in direct if x.casefold().startswith("def/")]
+            direct = [reserved(x) for x in node if isinstance(x, str)]
+            marks = [n for n, _ in direct if n in TEMPORAL_TAGS]
+            defs = [rest.casefold() for n, rest in direct if n == "def" and rest]
             if marks and defs:
                 out.append((marks[0], defs[0]))
     return out
@@ -250,15 +288,16 @@ def temporal_events(text):
     if tree is None:
         return None
     for leaf, depth in _leaves(tree):
-        if leaf.split("/")[0].strip().casefold() == "delay" and (depth != 1 or not _DELAY_VALUE.match(leaf.strip())):
+        name, rest = reserved(leaf)
+        if name == "delay" and (depth != 1 or not _DELAY_VALUE.match("delay/" + rest)):
             return None
     out = []
     for node in tree:
         if isinstance(node, list):
-            direct = [x.strip() for x in node if isinstance(x, str)]
-            marks = [x.casefold() for x in direct if x.casefold() in TEMPORAL_TAGS]
-            defs = [x.split("/", 1)[1].casefold() for x in direct if x.casefold().startswith("def/")]
-            delays = [_DELAY_VALUE.match(x) for x in direct if x.split("/")[0].casefold() == "delay"]
+            direct = [reserved(x) for x in node if isinstance(x, str)]
+            marks = [n for n, _ in direct if n in TEMPORAL_TAGS]
+            defs = [rest.casefold() for n, rest in direct if n == "def" and rest]
+            delays = [_DELAY_VALUE.match("delay/" + rest) for n, rest in direct if n == "delay"]
             if len(delays) > 1:
                 return None
             shift = float(delays[0].group(1)) * (0.001 if delays[0].group(2) == "ms" else 1.0) if delays else 0.0
@@ -270,7 +309,7 @@ def temporal_events(text):
 def count_delay_groups(text):
     tree = parse_strict(text)
     return sum(1 for node in tree or [] if isinstance(node, list)
-               and any(isinstance(x, str) and x.split("/")[0].strip().casefold() == "delay" for x in node))
+               and any(isinstance(x, str) and reserved(x)[0] == "delay" for x in node))
 
 
 def temporal_oracle(rows_in_time_order):
@@ -322,14 +361,25 @@ def _mixed(word):
 
 
 def respell(text, mode):
-    """the reserved tag names of `text` in lower / upper / mixed letter case (values, units and other tags untouched)"""
-    f = {"lower": str.lower, "upper": str.upper, "mixed": _mixed}[mode]
-    return RESERVED.sub(lambda m: f(m.group(1)), text)
+    """the reserved tag names of `text` (written in canonical short form) in another valid spelling; values, units and other
+    tags untouched.  mode = [long | partial][-][lower | upper | mixed]: full path / parent + name, then the letter case"""
+    form, _, case = mode.rpartition("-") if "-" in mode else (("", "", mode) if mode in ("lower", "upper", "mixed") else (mode, "", ""))
+    f = {"lower": str.lower, "upper": str.upper, "mixed": _mixed, "": lambda x: x}[case]
+
+    def spelled(name):
+        path = reserved_paths()[name]
+        if form == "long":
+            name = "/".join(path)
+        elif form == "partial":
+            name = "/".join(path[-2:])
+        return f(name)
+    return RESERVED.sub(lambda m: spelled(m.group(1)), text)
 
 
 def count_time_tags(text):
+    """number of Onset / Offset / Inset / Delay / Duration tags of the annotation, in whatever spelling"""
     tree = parse_strict(text)
-    return sum(1 for leaf, _ in _leaves(tree or []) if leaf.split("/")[0].strip().casefold() in TIME_TAGS)
+    return sum(1 for leaf, _ in _leaves(tree or []) if reserved(leaf)[0] in TIME_TAGS)
 
 
 def _untimed(onset_text):
@@ -351,7 +401,8 @@ def _sev_error(i):
     return i["severity"] == ErrorSeverity.ERROR
 
 
-def check_file(layout, rows, order, raise_label=L_RAISES, eq_label=L_EQUAL, temporal_label=L_TEMPORAL, canon_rows=None):
+def check_file(layout, rows, order, raise_label=L_RAISES, eq_label=L_EQUAL, temporal_label=L_TEMPORAL, canon_rows=None,
+               canon_label=L_CASE):
     """validate the file whose rows are rows[order[0]], rows[order[1]], ...; returns (checks, canonical issues)
     checks: list of (clause, ok, observed, expected); canonical: multiset of issues with row labels mapped to base rows.
     canon_rows: the same table with the reserved tags in canonical spelling (relational letter-case check);
@@ -440,12 +491,15 @@ def check_file(layout, rows, order, raise_label=L_RAISES, eq_label=L_EQUAL, temp
         add(L_KEYMISS, got_km == want_km, sorted(map(str, got_km.elements())), sorted(map(str, want_km.elements())))
     # temporal oracle (string-clean tables with an onset column; plain Delay groups that land on no other row)
     if lay["onset"] and clean_table and temporal_label is not None:
-        in_time = sorted(range(n), key=lambda k: order[k])
         onset_col = lay["columns"].index("onset")
+        timed = [k for k in range(n) if not _untimed(file_rows[k][onset_col])]
+        # rows without a time take no part in the temporal bookkeeping (their temporal tags are errors of the row itself,
+        # counted above); the others in time order (base rows are listed in time order, so order[k] sorts them)
+        in_time = sorted(timed, key=lambda k: (float(file_rows[k][onset_col]), order[k]))
         counts = temporal_oracle([(float(file_rows[k][onset_col]), spec[k]["text"]) for k in in_time])
         if counts is not None:
             want_t = {k: c for k, c in zip(in_time, counts)}
-            got_t = {k: extras[k] for k in range(n)}
+            got_t = {k: extras[k] for k in timed}
             add(temporal_label, got_t == want_t, got_t, want_t)
     # letter case of the reserved tags is irrelevant: same issues as the canonical spelling (messages and the
     # capitalisation style warning aside)
@@ -455,16 +509,23 @@ def check_file(layout, rows, order, raise_label=L_RAISES, eq_label=L_EQUAL, temp
                                               if i["code"] != "STYLE_WARNING")
         got_c = sig(issues)
         want_c = sig(c_issues) if c_err is None else None
-        add(L_CASE, got_c == want_c, sorted(map(list, got_c.elements()), key=str),
+        add(canon_label, got_c == want_c, sorted(map(list, got_c.elements()), key=str),
             c_err if want_c is None else sorted(map(list, want_c.elements()), key=str))
-    # out-of-order warning
+    # out-of-order warning: exactly one when the numeric onsets, read in file order, step backwards; none when every onset is a
+    # number and they are in order.  Onsets in order but some of them undefined: the warning's own text asks for onsets
+    # "increasing and defined" - one warning, judged under its own label
     if lay["onset"]:
+        onset_col = lay["columns"].index("onset")
+        defined = [float(r[onset_col]) for r in file_rows if not _untimed(r[onset_col])]
+        backwards = any(b < a for a, b in zip(defined, defined[1:]))
         n_un = sum(1 for i in issues if i["code"] == "ONSETS_UNORDERED")
-        add(L_UNORDERED, n_un == (0 if list(order) == sorted(order) else 1), n_un,
-            0 if list(order) == sorted(order) else 1)
+        if backwards or len(defined) == n:
+            add(L_UNORDERED, n_un == (1 if backwards else 0), n_un, 1 if backwards else 0)
+        else:
+            add(L_UNDEFINED, n_un == 1, n_un, 1)
     if eq_label != L_EQUAL:  # dedicated part: every row-content check is attributed to its narrow label
         res = [((eq_label if cl in (L_EQUAL, L_CELLS, L_COLLABEL) else cl), ok, o, e) for cl, ok, o, e in res
-               if cl not in (L_UNORDERED, L_TEMPORAL, temporal_label)]
+               if cl not in (L_TEMPORAL, temporal_label)]
     canon = collections.Counter()
     for i in issues:
         if i["code"] == "ONSETS_UNORDERED":
@@ -476,14 +537,14 @@ def check_file(layout, rows, order, raise_label=L_RAISES, eq_label=L_EQUAL, temp
 
 
 def check_table(layout, rows, perms=None, raise_label=L_RAISES, eq_label=L_EQUAL, temporal_label=L_TEMPORAL,
-                canon_rows=None):
+                canon_rows=None, canon_label=L_CASE):
     """all (or the given) row permutations of one base table (rows listed in onset order)"""
     n = len(rows)
     perms = perms if perms is not None else list(itertools.permutations(range(n)))
     out = []
     base = None
     for order in perms:
-        res, canon = check_file(layout, rows, list(order), raise_label, eq_label, temporal_label, canon_rows)
+        res, canon = check_file(layout, rows, list(order), raise_label, eq_label, temporal_label, canon_rows, canon_label)
         if list(order) == list(range(n)):
             base = canon
         elif base is not None and canon is not None:
@@ -649,7 +710,7 @@ def _job(job):
             results = check_table_together(layout, rows, tb["perms"])
         else:
             results = check_table(layout, rows, tb.get("perms"), tb.get("raise_label", L_RAISES), tb.get("eq_label", L_EQUAL),
-                                  tb.get("temporal_label", L_TEMPORAL), tb.get("canon_rows"))
+                                  tb.get("temporal_label", L_TEMPORAL), tb.get("canon_rows"), tb.get("canon_label", L_CASE))
         for order, res in results:
             out["n"] += 1
             out["keys"].append((tb["key"], tuple(order)))
@@ -664,7 +725,8 @@ def _job(job):
                                                       "raise_label": tb.get("raise_label", L_RAISES),
                                                       "eq_label": tb.get("eq_label", L_EQUAL),
                                                       "temporal_label": tb.get("temporal_label", L_TEMPORAL),
-                                                      "canon_rows": tb.get("canon_rows")}, obs, exp))
+                                                      "canon_rows": tb.get("canon_rows"),
+                                                      "canon_label": tb.get("canon_label", L_CASE)}, obs, exp))
                     else:
                         out["fails"].append((clause, None, None, None))
     return out
@@ -971,7 +1033,7 @@ def replay(w: Workload, case: dict):
         return
     for order, res in check_table(inp["layout"], inp["rows"], perms, inp.get("raise_label", L_RAISES),
                                   inp.get("eq_label", L_EQUAL), inp.get("temporal_label", L_TEMPORAL),
-                                  inp.get("canon_rows")):
+                                  inp.get("canon_rows"), inp.get("canon_label", L_CASE)):
         if order != inp["order"]:
             continue
         for cl, ok, obs, exp in res:
